@@ -179,7 +179,7 @@ def run_chunk(
         if r.status == "violation":
             if len(out.violations) < 4:
                 out.violations.append(
-                    {"idx": idx, "seed": seed, "signature": r.signature, "detail": r.detail, "values": r.values}
+                    {"idx": idx, "seed": seed, "signature": r.signature, "detail": r.detail, "values": r.values, "chunk_start": start}
                 )
         elif r.status in ("error", "timeout", "aborted"):
             if len(out.problems) < 4:
@@ -306,6 +306,18 @@ def replay_file(path: str) -> tuple[int, str]:
     with open(path) as f:
         doc = json.load(f)
     world = run_seed(doc["world"])
+    if doc.get("kind") == "history":
+        # the violating run needs the runs before it in the same process (state a run left behind):
+        # re-execute that history from its seeds, in order
+        want = tuple(doc["signature"])
+        last: RunResult | None = None
+        for idx in range(doc["first_run_index"], doc["run_index"] + 1):
+            seed = derive_seed(doc["verif_seed"], doc["world"], idx)
+            last = execute(world, Choices(seed=seed), doc["property"], dict(doc["config"], run_index=idx))
+        assert last is not None
+        if last.status == "violation" and last.signature == want:
+            return 1, f"VIOLATION property={doc['property']} replay={path}\n  {last.signature} {last.detail}\n  (after runs {doc['first_run_index']}..{doc['run_index'] - 1} of the same process)"
+        return 0, f"replay of {path}: no violation at run {doc['run_index']} (status {last.status}) {last.detail[:300]}"
     ch = Choices(strict_record=doc["record"])
     note = ""
     try:
@@ -329,6 +341,43 @@ def confirm_fresh(path: str) -> bool:
         cwd=VERIF_DIR, env=env, capture_output=True, text=True, timeout=600, check=False,
     )
     return p.returncode == 1 and "VIOLATION" in p.stdout
+
+
+def confirm_history(prop: str, plan: "Plan", base_seed: int, v: dict[str, Any]) -> str | None:
+    """A violation that does not replay from its own choices may need what earlier runs of its
+    worker left in the process. Re-execute the chunk's runs before it, in a fresh interpreter,
+    from the smallest suffix of that history that still reproduces it. Returns the replay path."""
+    os.makedirs(REPLAY_DIR, exist_ok=True)
+    idx, first = v["idx"], v.get("chunk_start", v["idx"])
+    if first >= idx:
+        return None
+    path = os.path.join(REPLAY_DIR, f"{prop}-{plan.world}-{base_seed}-{idx}-history.json")
+
+    def write(start: int) -> None:
+        with open(path, "w") as f:
+            json.dump({
+                "kind": "history", "property": prop, "world": plan.world, "config": plan.cfg, "verif_seed": base_seed,
+                "first_run_index": start, "run_index": idx, "signature": list(v["signature"]), "detail": v["detail"],
+            }, f, indent=1, default=str)
+
+    write(first)
+    if not confirm_fresh(path):
+        os.remove(path)
+        return None
+    # shrink the history: the latest start that still reproduces
+    lo, hi = first, idx - 1
+    best = first
+    while lo <= hi:
+        mid = (lo + hi + 1) // 2
+        write(mid)
+        if confirm_fresh(path):
+            best, lo = mid, mid + 1
+        else:
+            hi = mid - 1
+        if lo > hi:
+            break
+    write(best)
+    return path
 
 
 # -- known findings ----------------------------------------------------------------
@@ -477,6 +526,14 @@ def run_check(
             k = len(reported) - 1
             best = minimise(world, prop, cfg, v["values"], sig, max_s=(60.0, 25.0, 10.0)[min(k, 2)])  # type: ignore[arg-type]
         except RuntimeError as e:
+            hist = confirm_history(prop, plan, base_seed, v)
+            if hist is not None:
+                print(f"VIOLATION property={prop} replay={hist}", flush=True)
+                print(f"  invariant={sig[1]} site={sig[2]} (needs the runs before it in its process: a history replay)", flush=True)
+                print(f"  {v['detail']}", flush=True)
+                violations_reported += 1
+                exit_code = max(exit_code, 1)
+                continue
             print(f"UNCONFIRMED property={prop} violation {sig} at run {v['idx']}: {e}", flush=True)
             print(f"  {v['detail']}", flush=True)
             unconfirmed += 1
@@ -496,6 +553,14 @@ def run_check(
             violations_reported += 1
             exit_code = max(exit_code, 1)
         else:
+            hist = confirm_history(prop, plan, base_seed, v)
+            if hist is not None:
+                print(f"VIOLATION property={prop} replay={hist}", flush=True)
+                print(f"  invariant={sig[1]} site={sig[2]} (needs the runs before it in its process: a history replay)", flush=True)
+                print(f"  {v['detail']}", flush=True)
+                violations_reported += 1
+                exit_code = max(exit_code, 1)
+                continue
             print(f"UNCONFIRMED property={prop} violation {sig} did not reproduce in a fresh interpreter: {path}", flush=True)
             print(f"  {best.detail}", flush=True)
             unconfirmed += 1
